@@ -169,7 +169,7 @@ func (rc *refCompiler) enum(d *Decl, file string) {
 	e := &CEnum{FullName: d.FullName(), File: file}
 	e.Values = append(e.Values, CEnumVal{prefix + "UNSPECIFIED", 0})
 	for i, o := range d.Options {
-		e.Values = append(e.Values, CEnumVal{prefix + o.Name, int32(i + 1)})
+		e.Values = append(e.Values, CEnumVal{prefix + o.Name, o.Num(i)})
 	}
 	rc.c.Enums[e.FullName] = e
 }
